@@ -139,7 +139,7 @@ def main():
         "setup_cmd": "./check --setup",
         "hooks": {
             "guard": "cargo feature verif-hooks (off by default)",
-            "enable": "harness/Cargo.toml depends on swift-mt-message at path ../../repo with features=[\"verif-hooks\"]; ./check rebuilds it from /repo's working tree on every run",
+            "enable": "harness/Cargo.toml depends on swift-mt-message at path /repo with features=[\"verif-hooks\"]; ./check rebuilds it from /repo's working tree on every run",
             "baseline_off_cmd": BASELINE,
             "source_commits": hook_commits,
             "add_only": True,
